@@ -263,3 +263,19 @@ claim(
     '',
     'flag-scope rule + loop-shape rule + save/restore path rule + finite decision table',
 )
+
+claim(
+    'C06',
+    'Decided (sufficient modulo the catalogue of partial operations and the trusted base): over the 67 functions '
+    'reachable from compile() in the type-resolved call graph, every explicit raise that can propagate to compile() '
+    '(after filtering by the handlers around each call site) is SelectorSyntaxError, NotImplementedError, or one of '
+    'the enumerated documented exceptions (KeyError for duplicate custom names; ValueError/TypeError for arguments '
+    'outside the stated domain); every int/float/chr/datetime/decode/next/re.compile/constant-table-subscript site and '
+    'every possibly-unbound local is discharged by an enclosing handler, by inclusion of the feeding regex group in the '
+    "conversion's domain (incl. the 4300-digit limit), by an interval argument, or by the escaping discipline of "
+    'pattern templates; the custom-selector recursion is cut (name removed for the nested parse, restored after); the '
+    'arguments of the memoised compiler are hashable. Not decided: exceptions from operations outside the catalogue '
+    '(run-time subscripts and cast()/Any sites are listed as unproven), recursion depth, warnings-as-errors.',
+    '',
+    'exception-escape analysis over a type-resolved call graph with language/interval discharges',
+)
